@@ -210,6 +210,20 @@ def discharge_call(run, body, site):
         return False, "Vec::remove(index) in a closure whose index is not tied to a position() over the same vector"
     if name in ("std::vec::Vec::insert", "std::collections::VecDeque::insert") and len(args) == 3 and _const_int(strip(args[1])) == 0:
         return True, "insert at index 0 is in bounds for every length"
+    if name in ("std::ops::Index::index", "std::ops::IndexMut::index_mut") and len(args) == 2 and strip(args[1])[0] != "agg" and \
+            self_ty(t).get("adt") in ("std::vec::Vec",) or (name in ("std::ops::Index::index", "std::ops::IndexMut::index_mut") and len(args) == 2 and
+                                                             _some_payload_of(args[1], ("std::iter::Iterator::position",)) is not None):
+        # vec[i] with i = the Some payload of position() over the same vector, no mutation in between (D2 for indexing)
+        pos = _some_payload_of(args[1], ("std::iter::Iterator::position",))
+        if pos is not None and pos[2]:
+            it = strip(pos[2][0])
+            if it[0] == "call" and it[1] in ("core::slice::iter", "std::slice::iter", "core::slice::iter_mut") and it[2] and same_place_term(it[2][0], args[0]):
+                root = _root_of(args[0])
+                rl = root[1] if root[0] in ("arg", "local") else None
+                muts = _mutations_between(body, rl, pos[3], site) if rl is not None else ["?"]
+                if not muts:
+                    return True, "D2: index is the Some payload of Iterator::position over the same vector (%s), no mutation in between" % term_s(strip(args[0]))
+                return False, "index comes from position() but the vector may be mutated in between at %s" % muts
     if name in ("std::vec::Vec::remove", "std::vec::Vec::swap_remove") and len(args) == 2:
         pos = _some_payload_of(args[1], ("std::iter::Iterator::position",))
         if pos is not None and pos[2]:
@@ -375,7 +389,15 @@ def scan_panics(run, crate, prefix="A2", only=None, exempt=()):
                 if not ok:
                     # retry with private helpers looked through (an index computed by an extracted helper)
                     from .common import look_through_private
-                    ib = look_through_private(crate, body)
+                    from .. import desugar
+                    # a closure handed to an Option combinator is judged where it is applied: in the body that creates it
+                    owner = crate.bodies.get(body.name.split("::{closure")[0], body) if body.kind == "closure" else body
+                    ib = owner
+                    for _ in range(3):
+                        ib2 = desugar.desugar(crate, look_through_private(crate, ib), pipelines=False)
+                        if ib2 is ib:
+                            break
+                        ib = ib2
                     if ib is not body:
                         for s2 in ib.calls():
                             if cname(s2.node) == name and s2.span.get("s") == s.span.get("s"):
@@ -746,6 +768,8 @@ def _descent_witness(crate, body, cs, callee, comp):
                 ok_src = True
         if ok_src:
             return True, "reader descent: forwards the caller's Some(reader) (no reader -> no recursion)"
+        if a0[0] == "arg" and "Option<" in body.local_ty(a0[1]).get("s", "") and "quick_xml::Reader<" in body.local_ty(a0[1]).get("s", ""):
+            return True, "forwards its own optional reader unchanged: no reader is created here, the callee's own recursive calls carry the descent witness"
         # helper that received the reader itself: every caller inside the cycle must be the Start arm of the event loop
         if any(st[0] == "arg" and "quick_xml::Reader<" in body.local_ty(st[1]).get("s", "") and "Option<" not in body.local_ty(st[1]).get("s", "") for st in mir.subterms(a0)):
             callers = []
